@@ -87,3 +87,15 @@ package ir
 //@   except Kind.StmtEmit.Range.End Kind.StmtCall
 //@   ensures [emit-end] is(stmt.Kind, StmtEmit) && stmt.Kind.(StmtEmit).Range.Start < stmt.Kind.(StmtEmit).Range.End && int(stmt.Kind.(StmtEmit).Range.End) - 1 < len(exprMap) && is(result.Kind, StmtEmit) ==> result.Kind.(StmtEmit).Range.End == exprMap[int(stmt.Kind.(StmtEmit).Range.End) - 1] + 1
 //@   nopanic
+//
+// Compaction marks what an expression refers to before it drops the unmarked
+// ones: every handle an expression kind holds must end up marked.
+//
+//@ func markExprHandleRefs
+//@   mode bv
+//@   tags C13 C09
+//@   traverse mark kind ExpressionHandle int($) < len(referenced) ==> referenced[int($)]
+//@   except ExprAlias ExprPhi ExprCompose.Components
+//@   ensures [monotone] forall i int :: 0 <= i && i < len(referenced) && old(referenced[i]) ==> referenced[i]
+//@   loop 1 invariant [monotone] forall i int :: 0 <= i && i < len(referenced) && old(referenced[i]) ==> referenced[i]
+//@   nopanic
